@@ -544,8 +544,8 @@ Qed.
 
 Inductive shape (c : cfg) (r : req) : list event -> option Z -> Prop :=
 | ShRefuse s : may_refuse c r = true -> shape c r [EResp s true] None
-| ShSilent : shape c r [] None
-| Sh100 : r_expect r = true -> shape c r [E100] None
+| ShSilent : shape c r [ESilent] None
+| Sh100 : r_expect r = true -> shape c r [E100; ESilent] None
 | Sh100Refuse s : r_expect r = true -> may_refuse c r = true -> shape c r [E100; EResp s true] None
 | ShRun pre n x s cl hj nxt :
     (pre = [] \/ (pre = [E100] /\ r_expect r = true)) -> expectation_rejected c r = false ->
@@ -614,8 +614,8 @@ Lemma shape_events c r evs nxt e : shape c r evs nxt -> In e evs ->
 Proof.
   intros Sh He. inversion Sh as [s M E1 E2 | E1 E2 | Ex E1 E2 | s Ex M E1 E2 | pre n x s cl hj nxt' Hp Hr Hh E1 E2]; subst; cbn in He.
   - destruct He as [<-|[]]; exact I.
-  - contradiction.
   - destruct He as [<-|[]]; exact I.
+  - destruct He as [<-|[<-|[]]]; exact I.
   - destruct He as [<-|[<-|[]]]; exact I.
   - apply in_app_or in He as [He|He].
     + destruct Hp as [-> | [-> _]]; cbn in He; [contradiction|destruct He as [<-|[]]; exact I].
